@@ -4,8 +4,9 @@
    sel0/sel1 caches (build_select{0,1}_cache), select{0,1}_upper_bound, the descending scan over lev2, in-word
    select (PDEP+TZCNT or clear-lowest-bit loop: both are "index of the k-th set bit, 64 if there is none").
    Same algorithm as separated_512.rs with LINE 256 / 4 words / byte-wide sub-block ranks instead of packed 9-bit
-   fields.  The word vector is the BitVector's block vector: ceil(len/64) words (ProofsBV.v: bits past the end are
-   zero).  Not modelled: u32 wrap of lev1.  Definitions only. *)
+   fields.  The word vector is the BitVector's block vector: ceil(len/64) words plus `extra` all-zero words (a
+   BitVector keeps its blocks after pop; ProofsBV.v: bits past the end are zero).  Not modelled: u32 wrap of lev1.
+   Definitions only. *)
 From Coq Require Import List Arith Lia Bool.
 From ZV.C04 Require Import Spec Model ModelGen.
 Import ListNotations.
@@ -44,9 +45,9 @@ Record se256 := {
   s0c256 : option (list nat); s1c256 : option (list nat);
   mr0_256 : nat; mr1_256 : nat }.
 
-Definition se256_build (bs : list bool) (speed0 speed1 : bool) : se256 :=
+Definition se256_build (bs : list bool) (extra : nat) (speed0 speed1 : bool) : se256 :=
   let sz := length bs in
-  let nw := nwords sz in
+  let nw := nwords sz + extra in
   let nl := nlines256 sz in
   let '(lines, cum) := se256_lines bs nw nl 0 0 in
   let cache := lines ++ [rc256_new cum] in
